@@ -265,6 +265,9 @@ class Check:
                     out.append("FUSED_" + L["act"])
                 if L.get("stride") and max(L["stride"]) >= 2 and L["op"] != "TRANSPOSE_CONV":
                     out.append("STRIDE_GE2")
+            opts = desc.get("opts") or []
+            if "--tensor-allocator" in opts:
+                out.append("OPT_ALLOC_" + str(opts[opts.index("--tensor-allocator") + 1]))
             return out
         except Exception:
             return []
@@ -284,7 +287,7 @@ class Check:
                 continue
             if k.get("min_count") and sum(1 for x in self.case_layers(desc) if x in k["min_count"]["of"]) < k["min_count"]["n"]:
                 continue
-            if k.get("max_layers") is not None and sum(1 for x in self.case_layers(desc) if not x.startswith("FUSED_") and x != "STRIDE_GE2") > k["max_layers"]:
+            if k.get("max_layers") is not None and sum(1 for x in self.case_layers(desc) if not x.startswith(("FUSED_", "OPT_")) and x != "STRIDE_GE2") > k["max_layers"]:
                 continue
             return k
         return None
